@@ -101,4 +101,38 @@ def check_involution(ctx: Ctx, prefixes):
                         ctx.fail("SB-INVOLUTION", fi, role, f"`{norm(d)}` drops a gate pair under `{norm(t)[:70]}`: {what} - gates that do not square to the identity (a phase, a rotation, a generic controlled gate), so two of them in a row are removed although together they are not the identity", d)
                     else:
                         ctx.ok("SB-INVOLUTION", fi, role, f"{sorted(names)} under `{norm(d)}`", d)
+    # pairs cancelled on plain equality of two entries of a gate list: `==` on (gate object, wires, parameter) tuples
+    # compares the gate objects by identity as long as no gate class defines __eq__; with a value-based __eq__ two
+    # distinct but equal S / T / P / CP gates in a row become "the same gate twice" and are dropped
+    eq_definers = []
+    try:
+        gm = repo.module(GATES)
+        for cn, ci in gm.classes.items():
+            if "__eq__" in ci.methods:
+                eq_definers.append(ci)
+    except AnchorError:
+        gm = None
+    for fi in repo.functions.values():
+        if fi.module is None or not any(fi.short.startswith(p) for p in prefixes):
+            continue
+        for n in ast.walk(fi.node):
+            if not (isinstance(n, ast.AugAssign) and isinstance(n.op, ast.Add) and isinstance(n.value, ast.Constant) and n.value.value in (2, 3) and isinstance(n.target, ast.Name)):
+                continue
+            for fact, pol in guard_facts(fi, n):
+                if not pol:
+                    continue
+                for t in ast.walk(fact):
+                    if isinstance(t, ast.Compare) and len(t.ops) == 1 and isinstance(t.ops[0], ast.Eq) and isinstance(t.left, ast.Subscript) and isinstance(t.comparators[0], ast.Subscript) and norm(t.left.value) == norm(t.comparators[0].value) and norm(t.left.value).endswith("gates"):
+                        sites += 1
+                        role = "entries cancelled on `==` are the same gate object, or of a class that is its own inverse"
+                        bad = []
+                        for ci in eq_definers:
+                            for k in [ci] + repo.subclasses(ci):
+                                if k.name not in INVOLUTORY and k.name not in bad:
+                                    bad.append(k.name)
+                        if bad:
+                            d = eq_definers[0]
+                            ctx.fail("SB-INVOLUTION", fi, role, f"`{norm(t)[:60]}` decides that two entries cancel, and {d.qualname}.__eq__ (line {d.methods['__eq__'].node.lineno}) makes gate objects compare by value: two separate {', '.join(sorted(bad)[:6])} gates on the same wires compare equal and are removed although applying such a gate twice is not the identity", n)
+                        else:
+                            ctx.ok("SB-INVOLUTION", fi, role, f"`{norm(t)[:60]}`: no gate class defines __eq__, entries are equal only when they hold the same gate object", n)
     ctx.ok("SB-INVOLUTION", None, "pair-cancelling peepholes scanned", f"{scanned} functions under {'/'.join(prefixes)}, {sites} class-guarded drops", construct="/".join(prefixes))
